@@ -108,4 +108,10 @@ theorem fallthrough_internal_fault_counterexample :
     C04.outcomeLine (C04.runProgram C04.Known.fallShrink 64) = "ok 1|d|" ∧
     fallShrinkObserved.allowed = false := by decide
 
+/-- the ending observed on `func f() { defer f(); panic("x") }; func main() { f() }` under a gas
+limit — live memory far beyond the allocation cap — is one the statement excludes -/
+theorem defer_panic_recursion_memory_counterexample :
+    deferPanicRecursionObserved.allowed = false ∧
+    Ending.ofToken "crash:mem-growth" = some deferPanicRecursionObserved := by decide
+
 end GnoVerif.C11
